@@ -307,7 +307,22 @@ func oracleC01(r *OpRun) {
 							if syncX != nil {
 								sn = syncX.N
 							}
-							r.e.Viol("C01", "O1", "event-before-synchronization", "binding %s of %s: Event %s %s@%d handed to the hook in execution #%d before the Synchronization step (#%d) completed", b.Name, h.Path, c.WatchEvent, key, c.Obj.RV, x.N, sn)
+							sig := "event-before-synchronization"
+							if syncX == nil {
+								// root cause known from C04/C06: the binding's Synchronization was combined behind a head
+								// task that allows failure, the combined run failed and was dropped with all its contexts
+								for _, y := range execs {
+									if y.Hook != h.Path || !y.Fail || y.StartSeq > x.StartSeq {
+										continue
+									}
+									for _, yc := range y.Ctxs {
+										if yc.Type == "Synchronization" && yc.Binding == b.Name && r.headMayAllowFailure(y) {
+											sig = "event-before-synchronization:combined-behind-allowFailure-head"
+										}
+									}
+								}
+							}
+							r.e.Viol("C01", "O1", sig, "binding %s of %s: Event %s %s@%d handed to the hook in execution #%d before the Synchronization step (#%d) completed", b.Name, h.Path, c.WatchEvent, key, c.Obj.RV, x.N, sn)
 						}
 					}
 				}
@@ -559,9 +574,13 @@ func (r *OpRun) oracleC01Group(h *HookSpec, b *KubeBinding, mid string, execs []
 				if em.Type != "Deleted" && !present && r.deletedLater(gvrOfKind(b.Kind).Resource, k, em.RV) {
 					ok = true // the snapshot already shows a later state: the object is gone again
 				}
-				// a later re-creation also supersedes a deletion
-				if em.Type == "Deleted" && present {
-					ok = ok || false
+				// a later re-creation supersedes a deletion: the snapshot shows a newer state of the object
+				if em.Type == "Deleted" {
+					for _, o := range l {
+						if o.Key() == k && o.RV > em.RV {
+							ok = true
+						}
+					}
 				}
 			}
 		}
